@@ -767,6 +767,10 @@ func (x *Exec) mapWrite(st *State, m VMap, key Value, val Value, del bool, in ss
 		return
 	}
 	x.lockAccess(st, m.Obj, true, in)
+	if strings.HasPrefix(m.Obj.Prov, "global:") {
+		// updating or deleting an entry of a package-level map is a write to shared state
+		x.V.noteGlobal(x.inst, "map "+strings.TrimPrefix(m.Obj.Prov, "global:"), "write")
+	}
 	c := st.mut(m.Obj)
 	old := c.MV
 	k := x.box(st, key)
